@@ -1345,6 +1345,126 @@ def fam_push_rules(ctx):
     return f
 
 
+# Blockwise classes whose `_task` mentions `index` outside `_blockwise_arg(dep, index)` although the selection may be
+# pushed below them: the reason why that is sound is recorded here (anything else found by the scan must be refused
+# by Partitions._simplify_down)
+_POSITION_SAFE = {
+    "EnforceRuntimeDivisions": "`index` only selects self.divisions[index] — the divisions of the REWRITTEN node, i.e. of the selection — and labels the error message",
+    "PartitionsFiltered": "_filtered_task(self._partitions[index]): the selection itself",
+}
+
+
+def _task_uses_partition_number(cls):
+    """AST scan: does the class's own task construction (`_task`) use `index` other than as the second argument of
+    `self._blockwise_arg(…, index)` / `(dep._name, index)` keys?  (Over-approximation; see _POSITION_SAFE.)"""
+    import ast
+    import inspect
+    import textwrap
+
+    fn = cls.__dict__.get("_task")
+    if fn is None:
+        return None  # inherited
+    try:
+        tree = ast.parse(textwrap.dedent(inspect.getsource(fn)))
+    except (OSError, TypeError, SyntaxError):
+        return None
+    uses = []
+
+    class V(ast.NodeVisitor):
+        def visit_Call(self, node):
+            f = node.func
+            if isinstance(f, ast.Attribute) and f.attr == "_blockwise_arg":
+                for a in node.args[:1]:
+                    self.visit(a)
+                return  # the index argument of _blockwise_arg is the sanctioned use
+            self.generic_visit(node)
+
+        def visit_Tuple(self, node):
+            # (x._name, index): a key of the same partition of a dependency
+            if len(node.elts) == 2 and isinstance(node.elts[1], ast.Name) and node.elts[1].id == "index" and isinstance(node.elts[0], ast.Attribute) \
+                    and node.elts[0].attr == "_name":
+                self.visit(node.elts[0])
+                return
+            self.generic_visit(node)
+
+        def visit_Name(self, node):
+            if node.id == "index" and isinstance(node.ctx, ast.Load):
+                uses.append(node.lineno)
+
+    V().visit(tree.body[0])
+    return bool(uses)
+
+
+def fam_push_guard(ctx):
+    """T1/T2: the class guard of Partitions._simplify_down against an independent judgement of every live Blockwise
+    class: structural exceptions (IO, Fused, SetIndexBlockwise) and classes whose task depends on the partition number
+    (AST scan of `_task`, MapOverlap reads neighbours, `partition_info`).  A class that looks at the partition number
+    and is NOT refused by the rule is a finding (D82 and D105 were of this kind)."""
+    from harness.extractors import live_expr_classes
+    from harness.extractors_state import collect_instances
+
+    from dask_expr._expr import Blockwise, Fused, MapOverlap, MapPartitions, Partitions, PartitionsFiltered
+    from dask_expr._shuffle import SetIndexBlockwise
+    from dask_expr.io import BlockwiseIO
+
+    import dask_expr as dx
+
+    f = Family("class_guard[Partitions._simplify_down vs partition-number dependence of every live Blockwise class]")
+    insts = dict(collect_instances())
+    # instances the pool does not contain
+    pdf = base(8)
+    df = dx.from_pandas(pdf, npartitions=4)
+    extra = [df.sample(frac=0.5, random_state=1), df.random_split([0.5, 0.5], random_state=2)[0], df.map_partitions(_mp_info, meta=df._meta.assign(num=0)),
+             df.map_partitions(_mp), df.a.shift(1), df.map_overlap(_mp, 1, 0, meta=df._meta.assign(m=0)), df.enforce_runtime_divisions(), df.a.rolling(2).sum()]
+    for c in extra:
+        for form in (c.expr, c.expr.lower_completely()):
+            for node in form.walk():
+                insts.setdefault(type(node), node)
+                if isinstance(node, MapPartitions) and node._has_partition_info:
+                    insts["MapPartitions[partition_info]"] = node
+    reqs, code, inputs = [], [], []
+    classes = sorted((c for c in live_expr_classes() if isinstance(c, type) and issubclass(c, Blockwise)), key=lambda c: c.__qualname__)
+    noinst = 0
+    for cls in classes + ["MapPartitions[partition_info]"]:
+        inst = insts.get(cls)
+        if inst is None or inst.npartitions < 2:
+            noinst += 1
+            continue
+        real_cls = type(inst)
+        structural = isinstance(inst, (BlockwiseIO, Fused, SetIndexBlockwise))
+        # the judgement: the first class in the MRO that defines `_task` decides
+        numdep = False
+        for k in real_cls.__mro__:
+            r = _task_uses_partition_number(k) if k.__name__ not in _POSITION_SAFE else (False if "_task" in k.__dict__ else None)
+            if r is not None:
+                numdep = r
+                break
+        if isinstance(inst, MapPartitions):
+            numdep = bool(inst._has_partition_info)  # the use of `index` sits under `if self._has_partition_info`
+        if isinstance(inst, MapOverlap):
+            numdep = True  # lowered to tasks that read the neighbouring partitions
+        try:
+            r = Partitions(inst, [inst.npartitions - 1, 0])._simplify_down()
+            if r is None:
+                txt = "none"
+            elif type(r) is real_cls and any(isinstance(o, Partitions) for o in r.operands):
+                txt = "wrap"
+            elif type(r) is real_cls and isinstance(r, PartitionsFiltered) and r._filtered:
+                txt = "absorb"
+            else:
+                txt = f"?{type(r).__name__}"
+        except AssertionError:
+            continue  # D28-shaped expressions have no divisions
+        except Exception as ex:  # noqa: BLE001
+            txt = _err(ex)
+        reqs.append(f"pt guard structural={b01(structural)} numdep={b01(numdep)} filtered={b01(isinstance(inst, PartitionsFiltered))}")
+        code.append(txt)
+        inputs.append({"class": real_cls.__qualname__ if isinstance(cls, type) else cls, "structural": structural, "number_dependent": numdep})
+    f.compare(inputs, code, drive(reqs), [True] * len(reqs))
+    f.note = f"{len(reqs)} live Blockwise classes with an instance of >= 2 partitions ({noinst} without); documented position-safe uses: {sorted(_POSITION_SAFE)}"
+    return f
+
+
 def fam_bjoin_keys(ctx):
     """T2: output keys of BroadcastJoin._layer under a partition selection."""
     import dask_expr as dx
@@ -1459,7 +1579,7 @@ def fam_sort_rules(ctx):
 
 def families(ctx):
     return [fam_seldiv, fam_partitions_layer, fam_filtered_contract, fam_compose, fam_fromarray, fam_frompandas,
-            fam_head_lower, fam_head_divisions, fam_push_rules, fam_bjoin_keys, fam_helpers, fam_sort_rules,
+            fam_head_lower, fam_head_divisions, fam_push_rules, fam_push_guard, fam_bjoin_keys, fam_helpers, fam_sort_rules,
             _c12_graphs, _c06_pq_lengths]
 
 
